@@ -254,6 +254,33 @@ def run(repo, rep, tier):
     from . import c06 as _c06
     L.borrow(repo, rep, "R02.2", "C06", _c06._decode,
              ("decode-before-parse",))
+    # a bytes value reaches the escaping step as text on every path: what
+    # render() hands to the generated code as '__decode' is bytes.decode
+    # itself or a function that returns a bytes.decode(...) result -- bytes
+    # passed through would skip the escape (the pre-check cannot search them)
+    pr = repo.func("chameleon.zpt.template.PageTemplate.render")
+    dec_ok, dec_n = True, 0
+    for n_ in ast.walk(pr.node):
+        if isinstance(n_, ast.Assign) and src(n_.targets[0]) == "decode":
+            dec_n += 1
+            vals = [n_.value]
+            while vals:
+                v_ = vals.pop()
+                if isinstance(v_, ast.IfExp):
+                    vals += [v_.body, v_.orelse]
+                elif src(v_) != "bytes.decode":
+                    dec_ok = False
+        if isinstance(n_, ast.FunctionDef) and n_.name == "decode":
+            dec_n += 1
+            rets = [r_ for r_ in ast.walk(n_) if isinstance(r_, ast.Return)]
+            if not rets or not all(
+                    isinstance(r_.value, ast.Call) and
+                    src(r_.value.func) in ("bytes.decode", "inst.decode")
+                    for r_ in rets):
+                dec_ok = False
+    rep.check(dec_ok and dec_n >= 2, "R02.2", pr.qualname, "the decoder "
+              "handed to the generated code returns text on every path",
+              construct="decode-returns-text", where=L.where(pr))
     L.state_rule(repo, rep)
 
 
